@@ -10,6 +10,7 @@ import Sourcer.Proofs.ObjectsProofs
 import Sourcer.Proofs.WalkProofs
 import Sourcer.Proofs.TransformProofs
 import Sourcer.Proofs.ModulesProofs
+import Sourcer.Syntax
 /-
   Property theorems (statements only; proofs are one-liners over Sourcer/Proofs/*).
   Every theorem is followed by an `example` showing its hypotheses are met by a concrete,
@@ -867,5 +868,51 @@ theorem C18_interleaving (bodyA bodyB : K → Prog K R) (sched : List Bool) (a b
       simp only [interleave, ih]
 
 end C18
+
+/-! ## C19 – alternative spellings elaborate to the same expression -/
+
+/-- operator spellings and constructor spellings elaborate to the very same expression object
+    (for operands that are not bare inline Python, which the constructor forms read as option
+    values – here: for every operand, because `Syn` keeps option values apart) -/
+theorem C19_sugar (e a b : Syn) :
+    elabSyn (.postfix e "?") = elabSyn (.call "Opt" [e] []) ∧
+    elabSyn (.postfix e "*") = elabSyn (.call "List" [e] []) ∧
+    elabSyn (.postfix e "+") = elabSyn (.call "Some" [e] []) ∧
+    elabSyn (.infix a ">>" b) = elabSyn (.call "Right" [a, b] []) ∧
+    elabSyn (.infix a "<<" b) = elabSyn (.call "Left" [a, b] []) ∧
+    elabSyn (.infix a "//" b) = elabSyn (.call "Sep" [a, b] []) ∧
+    elabSyn (.infix a "/?" b) = elabSyn (.call "Sep" [a, b] [("allow_trailer", .pybool true)]) ∧
+    elabSyn (.listLit [a, b]) = elabSyn (.call "Seq" [a, b] []) := by
+  refine ⟨?_, ?_, ?_, ?_, ?_, ?_, ?_, ?_⟩
+  · cases h : elabSyn e <;> simp [elabSyn, elabSynList, h]
+  · cases h : elabSyn e <;> simp [elabSyn, elabSynList, h, kwNat, mkList]
+  · cases h : elabSyn e <;> simp [elabSyn, elabSynList, h]
+  · cases ha : elabSyn a <;> cases hb : elabSyn b <;> simp [elabSyn, elabSynList, ha, hb]
+  · cases ha : elabSyn a <;> cases hb : elabSyn b <;> simp [elabSyn, elabSynList, ha, hb]
+  · cases ha : elabSyn a <;> cases hb : elabSyn b <;> simp [elabSyn, elabSynList, ha, hb, kwBool]
+  · cases ha : elabSyn a <;> cases hb : elabSyn b <;> simp [elabSyn, elabSynList, ha, hb, kwBool]
+  · cases ha : elabSyn a <;> cases hb : elabSyn b <;> simp [elabSyn, elabSynList, ha, hb]
+
+/-- `e{m,n}` and `List(e, min_len=m, max_len=n)` -/
+theorem C19_repeat (e : Syn) (m n : Nat) :
+    elabSyn (.repeat e (some (.pynum m)) (some (.pynum n))) =
+      elabSyn (.call "List" [e] [("min_len", .pynum m), ("max_len", .pynum n)]) := by
+  cases h : elabSyn e <;> simp [elabSyn, elabSynList, h, uncookBound, kwNat]
+
+/-- `a | b` and `Choice(a, b)` when neither side is itself a choice (otherwise `|` flattens,
+    which changes the tree but not the meaning: see `pegChoice`) -/
+theorem C19_choice (a b : Syn) (x y : Expr) (ha : elabSyn a = some x) (hb : elabSyn b = some y)
+    (hx : ∀ xs, x ≠ .choice xs) (hy : ∀ ys, y ≠ .choice ys) :
+    elabSyn (.infix a "|" b) = elabSyn (.call "Choice" [a, b] []) := by
+  have h1 : (match x with | .choice xs => xs | z => [z]) = [x] := by
+    cases x <;> first | rfl | (rename_i xs; exact absurd rfl (hx xs))
+  have h2 : (match y with | .choice xs => xs | z => [z]) = [y] := by
+    cases y <;> first | rfl | (rename_i ys; exact absurd rfl (hy ys))
+  simp only [elabSyn, elabSynList, ha, hb, h1, h2]
+  simp
+
+-- non-vacuity
+example : elabSyn (.infix (.str [97]) "/?" (.postfix (.ref 0) "+"))
+    = some (.sep (.str [97] false) (.list (.ref 0) 1 none) ⟨true, true, true, false⟩) := by rfl
 
 end Sourcer
